@@ -6,6 +6,28 @@ from decimal import Decimal
 from . import model as M
 
 
+def refused_operation(rng, m, unit):
+    """one call that the library is right to refuse (or to answer with another type), made on a live unit: a power that
+    is numerically whole but not an int, a root of non-int degree, arithmetic with a string, a unit plus a unit...
+    Whatever it does, it must leave no trace: the callers go on to judge the ordinary operations that follow."""
+    from decimal import Decimal
+    from fractions import Fraction
+
+    k = rng.choice([2, 3, -1, 4, 1, 0, -2])
+    q = m.Quantity(rng.choice([2, 2.5, Decimal("3")]), unit)
+    choices = [lambda: unit ** float(k), lambda: unit ** Decimal(k), lambda: unit ** Fraction(k), lambda: unit ** str(k), lambda: unit ** None,
+               lambda: q ** float(k), lambda: q ** Decimal(k), lambda: unit.root(float(k or 2)), lambda: q.root(2.0), lambda: unit * "m", lambda: unit / None,
+               lambda: unit + unit ** 2, lambda: q + 5, lambda: 5 - q, lambda: q < 5, lambda: unit ** (k + 0.5), lambda: unit ** True,
+               lambda: m.Unit.parse(str(unit) + "^2.0"), lambda: q.in_unit("not a unit"), lambda: q == "text", lambda: unit * (1, 2)]
+    try:
+        rng.choice(choices)()
+        return "answered"
+    except BaseException as e:  # noqa
+        if isinstance(e, (KeyboardInterrupt, SystemExit)):
+            raise
+        return type(e).__name__
+
+
 class Pools:
     def __init__(self, boot, mdl: M.Model, orc=None):
         self.b = boot
